@@ -145,8 +145,22 @@ pub fn run(ctx: &Ctx) -> Report {
     let mut max_cpu = 0.05f64;
     let stop_hogs = std::sync::Arc::new(AtomicBool::new(false));
     let mut hog_handles = Vec::new();
-    let algs: Vec<Alg> = if miri { vec![Alg::Sha256_128] } else { model::ALL_ALGS.to_vec() };
-    let ws: Vec<u32> = if miri { vec![1] } else { vec![1, 2, 4, 8] };
+    // the order of (hash, W) is part of the input: anything a call leaves behind in the process
+    // (caches, statics) meets a different successor under every seed and configuration
+    let mut algs: Vec<Alg> = if miri { vec![Alg::Sha256_128] } else { model::ALL_ALGS.to_vec() };
+    let mut ws: Vec<u32> = if miri { vec![1] } else { vec![1, 2, 4, 8] };
+    if !miri {
+        let ra = rng.range(0, algs.len());
+        algs.rotate_left(ra);
+        if rng.chance(1, 2) {
+            algs.reverse();
+        }
+        let rw = rng.range(0, ws.len());
+        ws.rotate_left(rw);
+        if rng.chance(1, 2) {
+            ws.reverse();
+        }
+    }
     let mut case_no = 0usize;
     'outer: for (ai, alg) in algs.iter().enumerate() {
         let alg = *alg;
